@@ -170,3 +170,207 @@ Theorem C12_resolution_completes_on_add : forall P c k i ch t0 ws now v,
        exists c'', checkLinkRequest P c' now' k att = Some (c'', true, [])).
 Proof. exact resolution_completes_on_add_get. Qed.
 Print Assumptions C12_resolution_completes_on_add.
+
+(* ================================================================== IPv6 neighbour discovery
+   Model: Model/Ndp.v (ipv6/icmp.go handleICMP: ICMPv6NeighborSolicit / ICMPv6NeighborAdvert branches,
+   LinkAddressRequest, ResolveStaticAddress; header/ipv6.go SolicitedNodeAddr) on top of Model/Echo.v
+   (NIC.DeliverNetworkPacket + ipv6 HandlePacket = nic6_deliver, icmpChecksum, ipv6 WritePacket).
+   Lemmas: Proofs/NdpP.v.  [views] is the ICMPv6 message as handleICMP gets it (a VectorisedView; the
+   code reads its first view only), [r] the route of the packet: local = IPv6 destination, remote =
+   IPv6 source, localLink = the link endpoint's address, remoteLink = link-layer source of the frame.
+
+   Clause map (property text, read for "IPv6 neighbour solicitation" -> theorem)
+   "answers a neighbour solicitation iff the target is one of its own addresses"
+        handler, exactly what the code tests (>= 24 bytes in the first view, type 135, target has an
+        endpoint on the NIC)                                      C12_ndp_advert_iff_target_local   (full, handler level)
+        whole inbound path: only if destination and target are NIC addresses
+                                                                  C12_ndp_deliver_answer_partial    (partial)
+                                                                  C12_ndp_foreign_destination_silent
+        NOT answered when sent, as RFC 4861 prescribes, to the solicited-node multicast address of an own
+        address that the application did not add to the NIC       C12_ndp_answers_iff_target_own_refuted
+        answered for a target that is a joined multicast group, advertisement sourced from the group
+        address                                                   C12_ndp_multicast_target_refuted
+        answered without any RFC 4861 7.1.1 validity check (hop limit, code, checksum)
+                                                                  C12_ndp_validity_checks_refuted
+   "with its own link address, addressed to the requester"        C12_ndp_advert_fields, C12_ndp_advert_readback,
+        checksum verifies against the RFC 2460 pseudo-header      C12_ndp_advert_checksum,
+        the IPv6 header around it                                 C12_ndp_frame
+        a probe from the unspecified address is answered TO the unspecified address and recorded
+                                                                  C12_ndp_unspecified_source_refuted
+   "learns the sender's mapping from replies and from requests addressed to it", and nothing else
+                                                                  C12_ndp_learns_from_advert, C12_ndp_learns_iff,
+                                                                  C12_ndp_ignored
+        the mapping is (address, link-layer source of the frame); the link-layer address OPTIONS are
+        never read                                                C12_ndp_learns_stated_address_refuted
+   never a panic on any input                                     C12_ndp_handle_never_panics, C12_ndp_deliver_never_panics
+   "a request is broadcast" (our own solicitation: solicited-node multicast destination, source
+   link-layer option, checksum; Ethernet destination ff:ff:ff:ff:ff:ff, not 33:33:ff:xx:xx:xx)
+                                                                  C12_ndp_request_wf, C12_ndp_request_link_destination,
+                                                                  C12_ndp_request_eth_multicast_refuted
+        LinkAddressRequest panics on addresses shorter than 3 / longer than 24 bytes (never passed by
+        the IPv6 callers, reachable through the exported Stack.GetLinkAddress)
+                                                                  C12_ndp_request_panics_short, C12_ndp_request_panics_long
+   satisfiability of the hypotheses: Examples nd_example, nd_round_trip_example in Proofs/NdpP.v *)
+From NP Require Import Model.Checksum Model.HdrIP Model.Echo Model.Ndp Proofs.NdpP.
+
+Theorem C12_ndp_advert_iff_target_local : forall locals r views,
+  (exists p l, nd_handle locals r views = NdDone (Some p) l) <->
+  (nd_is_solicit (vv_first views) /\ In (nd_target (vv_first views)) locals).
+Proof. exact nd_advert_iff_target_local. Qed.
+Print Assumptions C12_ndp_advert_iff_target_local.
+
+Theorem C12_ndp_advert_fields : forall locals r views p l,
+  nd_handle locals r views = NdDone (Some p) l ->
+  let v := vv_first views in
+  np_src p = nd_target v /\ np_dst p = nr_remote r /\ np_hop p = 255 /\
+  np_linkdst p = nr_remoteLink r /\
+  (exists c, 0 <= c < 65536 /\ np_icmp p = adv_msg (nd_target v) (nr_localLink r) c) /\
+  l = [(nr_remote r, nr_remoteLink r)].
+Proof. exact nd_advert_fields. Qed.
+Print Assumptions C12_ndp_advert_fields.
+
+Theorem C12_ndp_advert_readback : forall target ll c, length target = 16%nat -> length ll = 6%nat ->
+  let m := adv_msg target ll c in
+  length m = 32%nat /\ nd_is_advert m /\ nth 1 m 0 = 0 /\ nth 4 m 0 = 64 + 32 /\
+  nd_target m = target /\ bytes_at m 24 8 = [2; 1] ++ ll.
+Proof. exact adv_msg_readback. Qed.
+Print Assumptions C12_ndp_advert_readback.
+
+Theorem C12_ndp_advert_checksum : forall locals r views p l,
+  nd_handle locals r views = NdDone (Some p) l ->
+  bytes_ok (vv_first views) -> bytes_ok (nr_localLink r) -> bytes_ok (nr_remote r) ->
+  length (nr_remote r) = 16%nat ->
+  length (np_icmp p) = 32%nat /\
+  rfc1071_sum (pseudo6 (np_src p) (np_dst p) (Z.of_nat (length (np_icmp p))) ++ np_icmp p) 0 = 65535.
+Proof. exact nd_advert_checksum. Qed.
+Print Assumptions C12_ndp_advert_checksum.
+
+Theorem C12_ndp_frame : forall p, length (np_src p) = 16%nat -> length (np_dst p) = 16%nat ->
+  length (np_icmp p) = 32%nat -> np_hop p = 255 ->
+  nd_frame p = Some (([96; 0; 0; 0; 0; 32; 58; 255] ++ np_src p ++ np_dst p) ++ np_icmp p).
+Proof. exact nd_frame_flat. Qed.
+Print Assumptions C12_ndp_frame.
+
+Theorem C12_ndp_learns_from_advert : forall locals r views,
+  nd_is_advert (vv_first views) ->
+  exists l, nd_handle locals r views = NdDone None l /\
+    (forall a m, In (a, m) l <->
+       (m = nr_remoteLink r /\ (a = nd_target (vv_first views) \/ a = nr_remote r))) /\
+    (length l <= 2)%nat.
+Proof. exact nd_learns_from_advert. Qed.
+Print Assumptions C12_ndp_learns_from_advert.
+
+Theorem C12_ndp_learns_iff : forall locals r views,
+  (exists p l, nd_handle locals r views = NdDone p l /\ l <> []) <->
+  (nd_is_advert (vv_first views) \/
+   (nd_is_solicit (vv_first views) /\ In (nd_target (vv_first views)) locals)).
+Proof. exact nd_learns_iff. Qed.
+Print Assumptions C12_ndp_learns_iff.
+
+Theorem C12_ndp_ignored : forall locals r views,
+  ~ nd_is_advert (vv_first views) ->
+  ~ (nd_is_solicit (vv_first views) /\ In (nd_target (vv_first views)) locals) ->
+  nd_handle locals r views = NdDone None [] \/ nd_handle locals r views = NdOther.
+Proof. exact nd_ignored. Qed.
+Print Assumptions C12_ndp_ignored.
+
+Theorem C12_ndp_handle_never_panics : forall locals r views, nd_handle locals r views <> NdPanic.
+Proof. exact nd_handle_never_panics. Qed.
+Print Assumptions C12_ndp_handle_never_panics.
+
+Theorem C12_ndp_deliver_never_panics : forall locals myMAC srcMAC views,
+  nd_deliver locals myMAC srcMAC views <> NdPanic.
+Proof. exact nd_deliver_never_panics. Qed.
+Print Assumptions C12_ndp_deliver_never_panics.
+
+Theorem C12_ndp_deliver_answer_partial : forall locals myMAC srcMAC views p l,
+  nd_deliver locals myMAC srcMAC views = NdDone (Some p) l ->
+  exists dst src vs,
+    ipv6_destinationAddress (vv_first views) = Some dst /\
+    ipv6_sourceAddress (vv_first views) = Some src /\
+    nic6_deliver locals views = Some (NICMP (mkRoute dst src) vs) /\
+    In dst locals /\ nd_is_solicit (vv_first vs) /\ In (nd_target (vv_first vs)) locals /\
+    np_src p = nd_target (vv_first vs) /\ np_dst p = src /\ np_linkdst p = srcMAC /\
+    (exists c, 0 <= c < 65536 /\ np_icmp p = adv_msg (nd_target (vv_first vs)) myMAC c) /\
+    l = [(src, srcMAC)].
+Proof. exact nd_deliver_answer_partial. Qed.
+Print Assumptions C12_ndp_deliver_answer_partial.
+
+Theorem C12_ndp_foreign_destination_silent : forall locals myMAC srcMAC views dst,
+  ipv6_destinationAddress (vv_first views) = Some dst -> ~ In dst locals ->
+  nd_deliver locals myMAC srcMAC views = NdDone None [].
+Proof. exact nd_deliver_foreign_destination_silent. Qed.
+Print Assumptions C12_ndp_foreign_destination_silent.
+
+Theorem C12_ndp_answers_iff_target_own_refuted :
+  exists locals myMAC srcMAC pkt src msg,
+    rfc_valid_nd pkt src (sn_addr (nd_target msg)) msg /\ nd_is_solicit msg /\
+    In (nd_target msg) locals /\
+    nd_deliver locals myMAC srcMAC [pkt] = NdDone None [].
+Proof. exact nd_answers_iff_target_own_refuted. Qed.
+Print Assumptions C12_ndp_answers_iff_target_own_refuted.
+
+Theorem C12_ndp_multicast_target_refuted :
+  exists locals myMAC srcMAC pkt src dst msg p l,
+    rfc_valid_nd pkt src dst msg /\ nd_is_solicit msg /\ nth 0 (nd_target msg) 0 = 255 /\
+    nd_deliver locals myMAC srcMAC [pkt] = NdDone (Some p) l /\ np_src p = nd_target msg.
+Proof. exact nd_multicast_target_refuted. Qed.
+Print Assumptions C12_ndp_multicast_target_refuted.
+
+Theorem C12_ndp_validity_checks_refuted :
+  exists locals myMAC srcMAC pkt src dst msg p,
+    pkt = ip6_hdr_n src dst (Z.of_nat (length msg)) 1 ++ msg /\ nth 1 msg 0 = 7 /\
+    ~ icmp6_verifies src dst msg /\
+    nd_deliver locals myMAC srcMAC [pkt] = NdDone (Some p) [(src, srcMAC)].
+Proof. exact nd_validity_checks_refuted. Qed.
+Print Assumptions C12_ndp_validity_checks_refuted.
+
+Theorem C12_ndp_learns_stated_address_refuted :
+  exists locals myMAC srcMAC pkt src dst msg stated,
+    rfc_valid_nd pkt src dst msg /\ nd_is_advert msg /\ bytes_at msg 24 8 = [2; 1] ++ stated /\
+    stated <> srcMAC /\
+    nd_deliver locals myMAC srcMAC [pkt] = NdDone None [(nd_target msg, srcMAC)].
+Proof. exact nd_learns_stated_address_refuted. Qed.
+Print Assumptions C12_ndp_learns_stated_address_refuted.
+
+Theorem C12_ndp_unspecified_source_refuted :
+  exists locals myMAC srcMAC pkt dst msg p,
+    rfc_valid_nd pkt Z16 dst msg /\ nd_is_solicit msg /\
+    nd_deliver locals myMAC srcMAC [pkt] = NdDone (Some p) [(Z16, srcMAC)] /\ np_dst p = Z16.
+Proof. exact nd_unspecified_source_refuted. Qed.
+Print Assumptions C12_ndp_unspecified_source_refuted.
+
+Theorem C12_ndp_request_wf : forall addr localAddr myMAC,
+  length addr = 16%nat -> length localAddr = 16%nat ->
+  exists c, 0 <= c < 65536 /\
+    nd_link_address_request addr localAddr myMAC =
+      Some (([96; 0; 0; 0; 0; 32; 58; 255] ++ localAddr ++
+             [255; 2; 0; 0; 0; 0; 0; 0; 0; 0; 0; 1; 255] ++ skipn 13 addr) ++ sol_msg addr myMAC c,
+            [255; 255; 255; 255; 255; 255], []) /\
+    (bytes_ok addr -> bytes_ok localAddr -> bytes_ok myMAC ->
+     icmp6_verifies localAddr (sn_addr addr) (sol_msg addr myMAC c)).
+Proof. exact nd_request_wf. Qed.
+Print Assumptions C12_ndp_request_wf.
+
+Theorem C12_ndp_request_link_destination : forall addr localAddr myMAC pkt d s,
+  nd_link_address_request addr localAddr myMAC = Some (pkt, d, s) ->
+  d = [255; 255; 255; 255; 255; 255] /\ s = [].
+Proof. exact nd_request_link_destination. Qed.
+Print Assumptions C12_ndp_request_link_destination.
+
+Theorem C12_ndp_request_eth_multicast_refuted :
+  exists addr localAddr myMAC pkt d s,
+    length addr = 16%nat /\ nd_link_address_request addr localAddr myMAC = Some (pkt, d, s) /\
+    d <> eth_mcast (sn_addr addr).
+Proof. exact nd_request_eth_multicast_refuted. Qed.
+Print Assumptions C12_ndp_request_eth_multicast_refuted.
+
+Theorem C12_ndp_request_panics_short : forall addr localAddr myMAC,
+  (length addr < 3)%nat -> nd_link_address_request addr localAddr myMAC = None.
+Proof. exact nd_request_panics_short. Qed.
+Print Assumptions C12_ndp_request_panics_short.
+
+Theorem C12_ndp_request_panics_long : forall addr localAddr myMAC,
+  (24 < length addr)%nat -> nd_link_address_request addr localAddr myMAC = None.
+Proof. exact nd_request_panics_long. Qed.
+Print Assumptions C12_ndp_request_panics_long.
